@@ -120,8 +120,9 @@ def run_apply_simp(eng, p):
 
 
 def contracts(tier):
+    from . import rebuild
     kmax = 5 if tier == 'thorough' else 3
-    cs = []
+    cs = list(rebuild.substitute_contracts(tier))
     for k in range(0, kmax + 1):
         for nv in (0, 1, 2):
             cs.append(
